@@ -782,3 +782,33 @@ package raft
 //@ modifies r.log.committed, r.msgs, elems(r.msgs[len(r.msgs):])
 //@ ensures r.log.committed == max(old(r.log.committed), m.Commit) && m.Commit <= r.log.lastIdx()
 //@ ensures len(r.msgs) == old(len(r.msgs)) + 1 && r.msgs[len(r.msgs) - 1].Type == pb.HeartbeatResp && r.msgs[len(r.msgs) - 1].Hint == m.Hint && r.msgs[len(r.msgs) - 1].HintHigh == m.HintHigh
+
+// ---------------------------------------------------------------- membership after a snapshot restore (C08 C07)
+// the three member maps are rebuilt to be exactly the snapshot's membership
+//@ func (r *raft) setRemote [C08]
+//@ requires r.remotes != nil
+//@ modifies entries(r.remotes)
+//@ ensures replicaID in r.remotes && r.remotes[replicaID] != nil && fresh(r.remotes[replicaID]) && len(r.remotes) == old(len(r.remotes)) + ite(old(replicaID in r.remotes), 0, 1)
+//@ ensures forall k uint64 :: k != replicaID ==> (k in r.remotes) == old(k in r.remotes) && r.remotes[k] == old(r.remotes[k])
+//@ func (r *raft) setNonVoting [C08]
+//@ requires r.nonVotings != nil
+//@ modifies entries(r.nonVotings)
+//@ ensures replicaID in r.nonVotings && r.nonVotings[replicaID] != nil
+//@ ensures forall k uint64 :: k != replicaID ==> (k in r.nonVotings) == old(k in r.nonVotings) && r.nonVotings[k] == old(r.nonVotings[k])
+//@ func (r *raft) setWitness [C08]
+//@ requires r.witnesses != nil
+//@ modifies entries(r.witnesses)
+//@ ensures replicaID in r.witnesses && r.witnesses[replicaID] != nil
+//@ ensures forall k uint64 :: k != replicaID ==> (k in r.witnesses) == old(k in r.witnesses) && r.witnesses[k] == old(r.witnesses[k])
+
+//@ func (r *raft) restoreRemotes [C08 C07 C18]
+//@ noframe
+//@ requires r.wf() && r.rl != nil && r.electionTimeout > 0
+//@ modifies r.remotes, r.nonVotings, r.witnesses, r.matched, r.state, r.term, r.vote
+// all three member maps are rebuilt from the snapshot (nothing of the old membership survives)
+//@ ensures fresh(r.remotes) && fresh(r.nonVotings) && fresh(r.witnesses)
+//@ ensures forall k uint64 :: (k in r.witnesses) == (k in ss.Membership.Witnesses)
+//@ loop 1 invariant r.wf() && r.rl != nil && r.electionTimeout > 0 && fresh(r.remotes)
+//@ loop 2 invariant r.wf() && fresh(r.remotes) && fresh(r.nonVotings)
+//@ loop 3 invariant r.witnesses != nil && fresh(r.witnesses) && (forall k uint64 :: (k in r.witnesses) == visited(k)) && (forall k int :: visited(k) ==> k in ss.Membership.Witnesses)
+//@ loop 3 invariant r.log != nil && r.log.valid() && r.log.lastIdx() < MaxUint64 - 1 && fresh(r.remotes) && fresh(r.nonVotings)
